@@ -178,7 +178,7 @@ int main(int argc, char** argv) {
   std::vector<Item> items;
   std::vector<uint64_t> Ns = {2, 4, 8, 16, 32};
   if (args.thorough()) for (uint64_t n : {64, 256, 1024, 4096}) Ns.push_back(n);
-  else for (uint64_t n : {2048, 16384}) Ns.push_back(n);  // sparse large-N layer of the quick tier
+  else for (uint64_t n : {2048, 16384, 65536}) Ns.push_back(n);  // sparse large-N layer of the quick tier
   auto cf = cfgs(args.thorough());
   for (uint64_t N : Ns) for (auto& c : cf) {
     for (int op = 0; op < NVECOPS; ++op) for (int mt = 0; mt < 2; ++mt) {
